@@ -218,6 +218,13 @@ def fixed_templates():
                                                    C('pals', 'Pal', 'parents')]},
         {'name': 'Kid', 'pk': ['id'], 'attrs': [S('id', required=True), S('v'), R('parent', 'Parent', 'kids', True)]},
         {'name': 'Pal', 'pk': ['id'], 'attrs': [S('id', required=True), C('parents', 'Parent', 'pals')]}]})
+    # compound deletes: a many-to-many set and a cascading set are processed BEFORE the set that refuses the delete
+    T.append({'name': 'mixed_cascade', 'entities': [
+        {'name': 'Parent', 'pk': ['id'], 'attrs': [S('id', required=True), S('x'), C('tags', 'Tag', 'parents'),
+                                                   C('kids', 'Kid', 'parent'), C('docs', 'Doc', 'parent', cascade=False)]},
+        {'name': 'Kid', 'pk': ['id'], 'attrs': [S('id', required=True), S('v'), R('parent', 'Parent', 'kids', True)]},
+        {'name': 'Doc', 'pk': ['id'], 'attrs': [S('id', required=True), S('d'), R('parent', 'Parent', 'docs', True)]},
+        {'name': 'Tag', 'pk': ['id'], 'attrs': [S('id', required=True), C('parents', 'Parent', 'tags')]}]})
     # one-to-many optional
     T.append({'name': 'o2m_opt', 'entities': [
         {'name': 'Parent', 'pk': ['id'], 'attrs': [S('id', required=True), S('x', 'str'), C('kids', 'Kid', 'parent')]},
